@@ -158,6 +158,9 @@ func (s *vpStore) applyUpdate(by string, key string, val []byte, rev uint64) (ui
 	s.expire()
 	if rev != s.lastSeq {
 		s.failed(by, "update", rev)
+		if s.dialect == vpDialectMock && !s.live() {
+			return 0, s.errNotFound() // the in-repo mock answers an Update of a missing key with "key not found"
+		}
 		return 0, s.errConflict()
 	}
 	return s.write(by, "update", val, false, rev), nil
